@@ -46,7 +46,12 @@ class _EvView:
 
 
 OPEN_HELPERS = {}      # id(model) -> {id(fn): fn} helpers whose obligations are discharged by their callers
-NO_INLINE = {LDG + '::_setLabel', LUG + '::setLabel'}
+NO_INLINE = {LDG + '::_setLabel', LUG + '::setLabel'}      # extended with the resolved helper names, see no_inline(m)
+
+
+def no_inline(m):
+    h = m.label_helpers()
+    return NO_INLINE | {h[0], h[2]}
 
 
 def imported_events(m, fn, depth=0):
@@ -59,7 +64,7 @@ def imported_events(m, fn, depth=0):
     opens = OPEN_HELPERS.get(id(m), {})
     for nid, g in m.callees(fn):
         n = fn.nodes[nid]
-        if n['k'] != 'CXXMemberCallExpr' or id(g) not in opens or g.tname in NO_INLINE:
+        if n['k'] != 'CXXMemberCallExpr' or id(g) not in opens or g.tname in no_inline(m):
             continue
         if base.tt.t(n.get('obj', -1)) != ('this',):
             continue
@@ -202,7 +207,7 @@ class Ctx:
                 return Key(t[3][0], t[3][1], False)
             if name in (UWG + '::getEdgeWeight',):
                 return Key(t[3][0], t[3][1], True)
-        if t[0] == 'mcall' and t[1].endswith('::_getLabel') and t[2] == ('this',):
+        if t[0] == 'mcall' and t[1] == self.m.label_helpers()[1] and t[2] == ('this',):
             return self.key_of(t[3][0])
         return None
 
@@ -390,6 +395,13 @@ def eval_order(t, env):
         if c is None:
             return None
         return eval_order(t[2] if c else t[3], env)
+    if k == 'call' and t[1] in ('std::min', 'std::max') and len(t[2]) == 2:
+        a, b = eval_order(t[2][0], env), eval_order(t[2][1], env)
+        if a is None or b is None or isinstance(a, bool) or isinstance(b, bool):
+            return None
+        return min(a, b) if t[1] == 'std::min' else max(a, b)
+    if k == 'conv' and len(t) == 3:
+        return eval_order(t[2], env)
     return None
 
 
@@ -776,7 +788,7 @@ class PairEngine:
             return
         OPEN_HELPERS[id(m)] = {}
         helpers = [f for f in m.fns if f.record in GRAPH_CLASSES and not f.is_lambda and not f.is_const and not f.is_ctor and
-                   f.access in ('private', 'protected') and f.tname not in NO_INLINE]
+                   f.access in ('private', 'protected') and f.tname not in no_inline(self.m)]
         for f in helpers:
             ev = events_of(m, f)
             writes = [e for e in ev.state_writes()]
@@ -962,9 +974,9 @@ class PairEngine:
                 if ctx.tt.t(n.get('obj', -1)) != ('this',):
                     continue
                 args = [ctx.tt.t(a) for a in n.get('args', [])]
-                if cd['tname'] == LDG + '::_setLabel' and len(args) == 2:
+                if cd['tname'] == ctx.m.label_helpers()[0] and len(args) == 2:
                     out.append(dict(node=n['i'], key=ctx.key_of(args[0], n['i']), value=args[1], kind='_setLabel'))
-                elif cd['tname'] == LUG + '::setLabel' and len(args) == 3:
+                elif cd['tname'] == ctx.m.label_helpers()[2] and len(args) == 3:
                     out.append(dict(node=n['i'], key=Key(args[0], args[1], True), value=args[2], kind='setLabel'))
         return out
 
@@ -1529,6 +1541,10 @@ class PairEngine:
             if ok:
                 R.ok(dict(function=f.display(), event=ctx.desc(e.node), form='single', mirror=ctx.desc(part[0].node))
                      if len(R.samples) < 10 else None, fn=f.display())
+            elif e.extra.get('conditional') or any(ev2.extra.get('conditional') for ev2 in ctx.ev.events):
+                R.obligations += 1
+                R.broken('F-PAIR.M: erase(%s,%s) in %s happens inside a helper under a condition the helper receives from its caller '
+                         '(callback): the erase form (single / bulk / dedupe) cannot be decided' % (show(x, f.unit), show(y, f.unit), f.display()))
             else:
                 R.fail(Finding('F-PAIR.M', f.display(), 'erase(%s,%s) without mirror' % (show(x, f.unit), show(y, f.unit)),
                                f.nloc(e.node), 'a half-edge is erased (single form) without a mirrored removal of (%s,%s) '
@@ -1735,7 +1751,7 @@ class PairEngine:
                 if cd['tname'] in (LDG + '::hasEdge', LDG + '::getEdgeLabel', LDG + '::setEdgeLabel',
                                    LDG + '::removeEdge') and len(args) >= 2:
                     sites.append((n['i'], ('pair', args[0], args[1]), 'Directed::' + cd['name']))
-                elif cd['tname'] == LDG + '::_setLabel' or cd['tname'] == LDG + '::_getLabel':
+                elif cd['tname'] in ctx.m.label_helpers()[:2]:
                     sites.append((n['i'], args[0], 'Directed::' + cd['name']))
         seen = set()
         for nid, kt, what in sites:
